@@ -299,6 +299,47 @@ class Ctx:
         return self.driver
 
 
+class CallTimeout(Exception):
+    """a library call did not return within the limit of the check"""
+
+
+class time_limit:
+    """with time_limit(seconds): ...  raises CallTimeout inside the block (main thread only; SIGALRM)"""
+
+    def __init__(self, seconds):
+        self.seconds = seconds
+
+    def __enter__(self):
+        import signal
+
+        def _raise(signum, frame):
+            raise CallTimeout(f'no return within {self.seconds} s')
+        self._old = signal.signal(signal.SIGALRM, _raise)
+        signal.setitimer(signal.ITIMER_REAL, self.seconds)
+        return self
+
+    def __exit__(self, *a):
+        import signal
+        signal.setitimer(signal.ITIMER_REAL, 0)
+        signal.signal(signal.SIGALRM, self._old)
+        return False
+
+
+def limited(fn, seconds, on_timeout):
+    """fn with a wall-clock limit; on_timeout(name, args, kwargs) is called before CallTimeout propagates"""
+    import functools
+
+    @functools.wraps(fn)
+    def wrapper(*a, **k):
+        try:
+            with time_limit(seconds):
+                return fn(*a, **k)
+        except CallTimeout:
+            on_timeout(getattr(fn, '__name__', str(fn)), a, k)
+            raise
+    return wrapper
+
+
 def run_demo(ctx, name, args, fp, what, env_extra=None, timeout=3000):
     """run a correspondence script of harness/demos as a sub-process (its own interpreter: several of them patch library
     modules) against the freshly built driver. Exit 0 = model and implementation agree on everything it generated (its counts go
